@@ -11,7 +11,7 @@ import (
 
 func init() {
 	register("C34", propMeta{
-		Explanation:  "(R1) sop.Authorize: all acyclic control-flow paths to `return true` are enumerated with the branch conditions they take (exhaustive); every such path must have taken the false edge of `Visibility == VisibilitySystem` and must contain one complete justification: admin role; non-empty owner equal to the caller; public-or-empty visibility with action read or list; a role grant of the action or *; a user grant of the action or *. The system branch returns exactly caller.IsSystem and every other return is the literal false. (R2) CheckPolicy returns ErrSystemReadOnly for write/delete on the core system names before consulting the ACL, reaches Authorize otherwise, and returns nil only when Authorize returned true. (R3) the UI map agrees with enforcement: CanPerformAction is CheckPolicy==nil, EnforcePolicy returns CheckPolicy, and ResolveRBACMap's default branch calls CanPerformAction for the same action and asset; custom evaluators registered through RegisterAssetRBAC are listed as not covered.",
+		Explanation:  "(R1) sop.Authorize: all acyclic control-flow paths to `return true` are enumerated with the branch conditions they take (exhaustive); every such path must have taken the false edge of `Visibility == VisibilitySystem` and must contain one complete justification: admin role; non-empty owner equal to the caller; public-or-empty visibility with action read or list; a role grant of the action or *; a user grant of the action or *. The system branch returns exactly caller.IsSystem and every other return is the literal false. (R2) CheckPolicy returns ErrSystemReadOnly for write/delete on the core system names before consulting the ACL, reaches Authorize otherwise, and returns nil only when Authorize returned true. (R3) the UI map agrees with enforcement: CanPerformAction is CheckPolicy==nil, EnforcePolicy returns CheckPolicy, and ResolveRBACMap's default branch calls CanPerformAction for the same action and asset; custom evaluators registered through RegisterAssetRBAC are listed as not covered. R3 also requires every value stored into the capability map to be the Evaluator's or CanPerformAction's answer.",
 		DoesNotCover: "Custom per-asset Evaluator functions, and callers that forget to call CheckPolicy at all.",
 		Technique:    "static analysis: exhaustive enumeration of acyclic CFG paths with typed guard classification (decision-table extraction)",
 	}, runC34)
